@@ -473,5 +473,5 @@ def run(ctx):
     r6(ctx)
     r7(ctx)
     import rules.common as _common
-    ctx.rule('C18.R10', 'arguments keep their roles across calls: at every call of a repository function in the client-facing sources (what was parsed as circuit, name, field or data reaches the handler in that role) whose arguments are named like parameters of the callee, no two of them are passed crosswise (argument i named like parameter j and argument j like parameter i)', minimum=60)
-    _common.swapped_args_rule(ctx, 'C18.R10', ('src/ebusd/',), 60)
+    ctx.rule('C18.R10', 'arguments keep their roles across calls: at every call of a repository function in the client-facing sources (what was parsed as circuit, name, field or data reaches the handler in that role) whose arguments are named like parameters of the callee, no two of them are passed crosswise (argument i named like parameter j and argument j like parameter i)', minimum=15)
+    _common.swapped_args_rule(ctx, 'C18.R10', ('src/ebusd/',), 15)
